@@ -110,6 +110,41 @@ def m_wrapping(op):
     return f
 
 
+def m_to_bytes(little):
+    """iN::to_le_bytes / to_be_bytes: byte k is bits 8k..8k+7 of the value"""
+    def f(I, st, args, dest_ty, *r):
+        a = args[0]
+        if a.kind != "int" or not M.int_type(a.ty):
+            return TopV(dest_ty, a.deps())
+        n = M.int_type(a.ty)[0] // 8
+        uty = "u" + a.ty[1:]
+        u = I.cast_int(a, uty)
+        out = []
+        for k in range(n):
+            sh = u if k == 0 else I.binop(st, "Shr", u, IntV.const("u32", 8 * k), uty)
+            out.append(I.cast_int(sh, "u8"))
+        return AggV("array", out if little else out[::-1])
+    return f
+
+
+def m_from_bytes(little):
+    """iN::from_le_bytes / from_be_bytes"""
+    def f(I, st, args, dest_ty, *r):
+        a = _deref(I, st, args[0]) if args[0].kind == "ref" else args[0]
+        if a.kind != "agg" or not M.int_type(dest_ty) or any(x.kind != "int" for x in a.fields):
+            return IntV.top(dest_ty, a.deps()) if M.int_type(dest_ty) else TopV(dest_ty, a.deps())
+        uty = "u" + dest_ty[1:]
+        bs = list(a.fields) if little else list(a.fields)[::-1]
+        acc = None
+        for k, x in enumerate(bs):
+            w = I.cast_int(x, uty)
+            if k:
+                w = I.binop(st, "Shl", w, IntV.const("u32", 8 * k), uty)
+            acc = w if acc is None else I.binop(st, "BitOr", acc, w, uty)
+        return I.cast_int(acc, dest_ty)
+    return f
+
+
 def m_into(I, st, args, dest_ty, *r):
     a = args[0]
     if a.kind == "int" and M.int_type(dest_ty):
@@ -324,6 +359,26 @@ def m_unwrap_or(I, st, args, dest_ty, *r):
     return IntV.top(dest_ty, d) if M.int_type(dest_ty) else TopV(dest_ty, d)
 
 
+def m_option_map(I, st, args, dest_ty, fn, b, line, fref):
+    """Option::map(f): None stays None, Some(x) becomes Some(f(x)) with f's body run on x"""
+    from absint import vjoin
+    v, clos = args[0], args[1]
+    d = _deps(I, st, args)
+    if v.kind == "enum" and v.variant == 0:
+        return EnumV("Option", 0, (), 2, v.ddeps)
+    pay = None
+    if v.kind == "enum":
+        pay = v.fields[0] if v.variant == 1 and v.fields else (v.alts[1][0] if v.alts and v.alts.get(1) else None)
+    if pay is None:
+        return m_top(I, st, args, dest_ty)
+    r = I.call_closure(st, clos, [pay])
+    if r is None:
+        return m_top(I, st, args, dest_ty)
+    if v.variant == 1:
+        return EnumV("Option", 1, (r,), 2, v.ddeps)
+    return EnumV("Option", None, (), 2, v.ddeps | d, {0: (), 1: (r,)})
+
+
 def m_panic(I, st, args, dest_ty, fn, b, line, fref):
     I.event("assert", fn, b, line, akind="panic-call:" + fref.get("def", "?"), status="reached", witness=None, vals=[], exp=False)
     st.dead = True
@@ -516,6 +571,10 @@ class ZeroMem(MemV):
 
 
 MODELS = [(re.compile(p), f) for p, f in [
+    (r"num::<impl [iu](8|16|32|64|128|size)>::to_le_bytes$", m_to_bytes(True)),
+    (r"num::<impl [iu](8|16|32|64|128|size)>::to_be_bytes$", m_to_bytes(False)),
+    (r"num::<impl [iu](8|16|32|64|128|size)>::from_le_bytes$", m_from_bytes(True)),
+    (r"num::<impl [iu](8|16|32|64|128|size)>::from_be_bytes$", m_from_bytes(False)),
     (r"::wrapping_add$", m_wrapping("Add")),
     (r"::wrapping_sub$", m_wrapping("Sub")),
     (r"convert::Into::into$|convert::From::from$", m_into),
@@ -526,6 +585,8 @@ MODELS = [(re.compile(p), f) for p, f in [
     (r"from_str_radix$", m_from_str_radix),
     (r"Option::<T>::unwrap$|Result::<T, E>::unwrap$|::expect$", m_unwrap),
     (r"Option::<T>::unwrap_or$", m_unwrap_or),
+    (r"Option::<T>::map::<", m_option_map),
+    (r"Option::<T>::map$", m_option_map),
     (r"panicking::|::panic_|begin_panic|unwrap_failed|expect_failed", m_panic),
     (r"process::exit$", m_exit),
     (r"RangeInclusive<A>>::next$", m_range_next(True)),
